@@ -10,7 +10,7 @@ are exercised against the real pysam by the bounded checks of C13/C04/C09 (the s
   Call     : call["GT"] -> tuple of Optional[int] alleles or None; call["GT"] = alleles  sets the alleles and CLEARS all phase bits
              call.phased (get) = all alleles after the first carry the phase bit; call.phased = v sets the bit of every allele after the first
              call[tag] = None marks the value of another tag missing; `tag in call` == tag in the record's FORMAT keys
-  Header   : .records (list of header records with .key and .remove()), .formats view with `tag in` and remove_header(tag)
+  Header   : .records (list of header records with .key and .remove()), .formats and .info views with `tag in` and remove_header(tag)
 
 Strings coming out of pysam (tags, header keys) are modelled by interned integer ids; literals in the code are interned the same way.
 Type invariants of a reader's contents (assumed when it is opened): records and calls are non-null, pairwise distinct objects, and every call
@@ -72,18 +72,20 @@ class SamplesView(VModel):
 
 
 class HeaderFormatsView(VModel):
-    def __init__(self, hdr):
-        self.hdr = hdr
+    """header.formats / header.info: the set of IDs defined as FORMAT / INFO (two separate name spaces in a VCF header)"""
+
+    def __init__(self, hdr, field="formats"):
+        self.hdr, self.field = hdr, field
 
     def sym_contains(self, eng, st, x):
-        return eng.load_field(st, self.hdr, "formats").dom[eng.key_of(x)]
+        return eng.load_field(st, self.hdr, self.field).dom[eng.key_of(x)]
 
     def sym_call_method(self, eng, st, name, args, kwargs, node=None):
         if name == "remove_header" and len(args) == 1:
-            s = eng.load_field(st, self.hdr, "formats")
-            eng.store_field(st, self.hdr, "formats", VSet(INT, z3.Store(s.dom, eng.key_of(args[0]), False)))
+            s = eng.load_field(st, self.hdr, self.field)
+            eng.store_field(st, self.hdr, self.field, VSet(INT, z3.Store(s.dom, eng.key_of(args[0]), False)))
             return NONE
-        raise Unsupported("header.formats.%s" % name)
+        raise Unsupported("header.%s.%s" % (self.field, name))
 
 
 class RecordModel:
@@ -101,6 +103,8 @@ class HeaderModel:
     def getattr(eng, st, obj, name):
         if name == "formats":
             return HeaderFormatsView(obj)
+        if name == "info":
+            return HeaderFormatsView(obj, "info")
         if name == "records":
             return eng.load_field(st, obj, "hrecs")
         return NotImplemented
@@ -191,6 +195,22 @@ class CallModel:
     def contains(eng, st, obj, x):
         rec = VRef("Record", to_z3(eng.load_field(st, obj, "rec")))
         return eng.load_field(st, rec, "fmt").dom[eng.key_of(x)]
+
+    @staticmethod
+    def method(eng, st, obj, name, args, kwargs):
+        if name == "get" and len(args) == 2 and not _is_gt(eng, args[0]):
+            # call.get(tag, default): the stored integer when the tag holds one; in every other case (tag undefined -> default, defined but missing -> None,
+            # non-integer value) the result is left unspecified
+            k = eng.key_of(args[0])
+            known = z3.And(eng.load_field(st, obj, "tag_int").dom[k], z3.Not(eng.load_field(st, obj, "tag_none").dom[k]))
+            if args[1] is NONE:
+                r = OPTINT.fresh("tagvalue")
+                st.assume(z3.Implies(known, r.expr == OPTINT.dt.some(eng.load_field(st, obj, "tag_int").map[k])))
+                return r
+            r = z3.Int(fresh_name("tagvalue"))
+            st.assume(z3.Implies(known, r == eng.load_field(st, obj, "tag_int").map[k]))
+            return r
+        return NotImplemented
 
     @staticmethod
     def getattr(eng, st, obj, name):
@@ -337,7 +357,7 @@ def _call_done(a, a0, c):
 
 
 def install(R):
-    R.declare_class("Header", {"formats": SET(INT), "hrecs": LIST(REF("HRec"))})
+    R.declare_class("Header", {"formats": SET(INT), "info": SET(INT), "hrecs": LIST(REF("HRec"))})
     R.declare_class("HRec", {"key": INT, "removed": BOOL})
     R.declare_class("Reader", {"header": REF("Header"), "records": LIST(REF("Record"))})
     R.declare_class("Writer", {"header": REF("Header"), "written": LIST(REF("Record"))})
